@@ -2,6 +2,8 @@ SPEC = {
     "id": "C09",
     "components": [
         {"comp": "routing", "module": "QV.Model.Routing", "quick": 1200, "thorough": 30000},
+        {"comp": "sim_c09", "module": "QV.Sys.MonC04", "quick": 50, "thorough": 1200},
+        {"comp": "sim_c09_data", "pymod": "sim_c09", "module": "QV.Sys.MonC01", "quick": 50, "thorough": 1200},
     ],
     "assumptions": [
         "cryptography is replaced by null keys and a session that never progresses (the routing code does not depend on it); "
